@@ -1,6 +1,6 @@
 (* C05 — Quiescent convergence (item model: Model/Item.v). *)
-From Coq Require Import List NArith Bool Arith.
-From Alp Require Import Base.Str Base.Types Model.Pull Model.Item Proofs.ItemProofs.
+From Coq Require Import List NArith ZArith Bool Arith.
+From Alp Require Import Base.Str Base.Types Model.Pull Model.Item Proofs.ItemProofs Model.Transport Proofs.TransportProofs.
 Import ListNotations.
 
 (* From every state of an item (consistent or not) and in every environment, four fault-free rounds of all daemons reach a
@@ -33,5 +33,18 @@ Theorem C05_reasons_are_genuine : forall e i r, blocked e i = Some r ->
 Proof. exact reasons_are_genuine. Qed.
 Print Assumptions C05_reasons_are_genuine.
 
+(* Transport groups (TransportGroupIO.pull_force): a local pull is handed to a node iff some node of the group is not under its
+   minimum, not over its limit and has room; the node chosen is such a node with the least free space (the fullest that fits);
+   a non-local pull is never handed over ("destination without a usable node" / "no transport route") *)
+Theorem C05_transport_choice : forall local nodes i, choose local nodes = Some i ->
+  local = true /\ exists n, In n nodes /\ t_id n = i /\ eligible n = true /\ forall m, In m nodes -> eligible m = true -> Z.le (key n) (key m).
+Proof. exact choose_some. Qed.
+Print Assumptions C05_transport_choice.
+Theorem C05_transport_none : forall local nodes, choose local nodes = None <-> local = false \/ forall n, In n nodes -> eligible n = false.
+Proof. exact choose_none. Qed.
+Print Assumptions C05_transport_none.
+
 Example C05_example : rounds 1 ex_env ex_item = rounds 4 ex_env ex_item /\ req (rounds 1 ex_env ex_item) = Completed.
 Proof. exact example_converge. Qed.
+Example C05_example_transport : choose true ex_tnodes = Some 3%N /\ choose false ex_tnodes = None.
+Proof. exact example_transport. Qed.
